@@ -81,6 +81,7 @@ type HS struct {
 	Transport   map[string]any `json:"transport,omitempty"`
 	Blocked     bool           `json:"blocked,omitempty"`     // CHALLENGE cannot be queued
 	RemoveRealm bool           `json:"removeRealm,omitempty"` // RemoveRealm once the CHALLENGE arrived
+	AfterClose  bool           `json:"afterClose,omitempty"`  // Router.Close() has completed before the client attaches
 	Rep         int64          `json:"rep"`                   // seed for the Go representation of the details
 	Arrivals    []Arrival      `json:"arrivals"`
 }
